@@ -105,6 +105,11 @@ def check(R, tier):
                     def dec(m, data=data): return {'kind': 'name', 'bytes': [m.eval(b, model_completion=True).as_long() for b in data]}
                     R.obligation(f'encode_filename(len {L}): every output byte is a letter, digit or one of _ . - ~ % (no separator, no NUL, no URL syntax, no control or non-ASCII byte)',
                                  list(s.pc) + cond, z3.And([safe_component_byte(b) for b in out] + [z3.BoolVal(True)]), decode=dec, group='encode/safe-bytes')
+                    if L == maxlen and (all(pattern) or not any(pattern)):
+                        # vacuity witnesses: names whose bytes are all escaped / all kept exist (the case split is not empty on either side)
+                        R.reach(f'encode_filename(len {L}): a name whose bytes are all ' + ('kept' if all(pattern) else 'escaped') + ' exists', list(s.pc) + cond)
+                if L == 1:
+                    R.reach('encode_filename: "/" is a possible input byte and is escaped', list(s.pc) + [data[0] == 0x2f] + enc_bytes(data, aset, (False,))[1])
         R.samples.append({'escape set size': len(aset) if aset else None, 'kept ASCII': ''.join(chr(c) for c in range(0x80) if aset is not None and c not in aset)})
         if aset is not None:
             R.obligation('the escape set contains % (so that escapes cannot be forged) and every path/URL-significant ASCII byte', [],
